@@ -52,7 +52,11 @@ VALUE_RULES = {
     "C18.e": "written vs restored expression per key",
     "C19.b": "shared C02.a / C02.b",
     "C19.c": "folded corner / centre tables",
+    "C08.a": "string vocabularies: accepted set vs literals compared / documented",
+    "C14.a": "parameter routing folded per class and dofs (raised exception, update keywords, offsets)",
+    "C14.f": "exponent sets of the polynomial basis, folded per degree",
     "C20.a": "finite tables folded exhaustively",
+    "C20.c": "kind-flow facts (letter vs index) and Image.slice folded per dimension",
     "C20.b": "signed permutations of the layout helpers",
 }
 GENERIC_VALUE_SUFFIXES = {
